@@ -26,6 +26,10 @@ TEXT = {
          "Rocq proof: prefix property of the ideal bit string under truncation of the call sequence; fault-injection correspondence for every k class"),
  "C14": ("Theorems C14_fill_equiv / C14_context_equiv / C14_bytes_roundtrip / C14_no_stale_data: for every buffer state, channel count, capacity, byte width 1..4 and block of in-range samples (negative extremes included) filling the frame buffer and the MD5/count context from packed little-endian bytes equals filling them from integers; the part of the buffer the encoder reads never depends on previous contents. Tied by the SRC stream (unit functions, and both delivery paths on identical data incl. oversized fills) and end-to-end by DLV.",
          "Rocq proof: sign-extension/byte algebra and buffer non-interference; paired-delivery correspondence"),
+ "C07": ("Theorems C07_verify_exact / C07_verified_no_panic: the verification model (ranges and the delegation graph regenerated from the source on every run) accepts a configuration iff all 17 fields are in their documented ranges; a verified configuration never makes the subframe encoder panic on a valid block for any entropy-estimator behaviour and any LPC-estimator answer satisfying lpc_oracle_ok. PARTIAL for panics inside the float estimators. Tied by the CFG stream (boundary grid, independent Python oracle) and by encoding the probe corpus with boundary configurations (ENC, decoded back).",
+         "Rocq proof: exactness of the verifier, totality (no Panic) of the encoder model under verified configurations; boundary-grid correspondence"),
+ "C19": ("Theorems C19_roundtrip, C19_empty_document_is_default, C19_omit_*_section, C19_omit_scalars, C19_partitions_default, C19_verify_agrees over a document-level model of the serde schema (container defaults, internally tagged enums, per-field default of partitions, Option<NonZeroUsize>); defaults are the implementation's Default impls dumped into Generated.v each run. Tied by the CFG stream: toml::to_string / toml::from_str against the model on random configurations, random omissions at every level and injected faults.",
+         "Rocq proof over a TOML document model of the schema; correspondence with toml::to_string/from_str"),
 }
 NOTE = ("Trusted: Coq 8.16.1 kernel, extraction with ExtrOcamlBasic only, OCaml driver, Rust harness, tools/*.py, "
         "and the hand-written model of the named source files, which is tied to /repo by differential testing "
